@@ -122,6 +122,12 @@ def run(v):
     proof = base.proof_stage(v, PROP)
     n = 1500 if C.tier() == "thorough" else 150
     failures, reports, errors, total, allrecs = [], [], [], 0, []
+    # "keeps assigning fresh edge ids" for ids outside the model's label universe too: networks whose explicit ids are whole-number
+    # floats / numpy scalars, duplicated by pickle, deepcopy, copy.copy and .copy(), then extended (the probe of C04, the
+    # duplication routes only)
+    for sig, payload in C04.exotic_id_probe():
+        if " then " in payload.get("provenance", ""):
+            failures.append((sig.replace("C04:", PROP + ":", 1), dict(payload, property_clause="a duplicate keeps assigning fresh edge ids")))
     for klass, (sim, fn) in CLASSES.items():
         rng = random.Random(C.seed() * 31 + 7)
         recs = HC.gen_histories(sim, n, 14, C.seed() + 70)
